@@ -576,6 +576,18 @@ def _run_check(mod, modname, prop_id, tier, seed, jobs, scratch, t0,
             print("HARNESS-ERROR property=%s vacuous exploration: outcome "
                   "classes never observed: %s" % (prop_id, missing))
             exit_code = 2
+    # cases whose set-up (writing the input dataset, running the preceding
+    # pipeline steps) failed were not evaluated: the declared space was not
+    # explored completely, which must not pass silently
+    incomplete = {c: n for c, n in tot["classes"].items()
+                  if c.startswith("setup-failed") or "pipeline-failed" in c
+                  or c.startswith("stats-shard-unreadable")
+                  or c.startswith("stats-dataset-unreadable")}
+    if incomplete and exit_code == 0:
+        print("HARNESS-ERROR property=%s incomplete exploration: the set-up "
+              "of %d cases failed (%s)" % (prop_id, sum(incomplete.values()),
+                                           sorted(incomplete)))
+        exit_code = 2
     for ln in lines:
         print(ln)
     return exit_code
